@@ -305,6 +305,87 @@ class Gen(object):
                 self.fill_block(e, r.randint(1, 2), depth + 1)
 
 
+# ---- really failing elements (C07) ------------------------------------------------------------
+BAD_EXPR = {"lua": ["1 +", "nosuchfn()", "(1)(2)"], "promela": ["1 +", "nosuchvar + 1", "7 / 0", "7 % 0"], "null": []}
+BAD_SEND = [({"type": "nosuch-ioproc"}, "error.execution"), ({"target": "bogus-target"}, "error.execution"),
+            ({"target": "#_nosuchinvoke"}, "error.communication")]
+
+
+def failure_of(e, dm):
+    """-> error event name if this element (as rendered) is one of the planted failing elements, else None"""
+    if e.tag in ("log", "assign", "data") and e.attrs.get("expr") in BAD_EXPR.get(dm, []):
+        return "error.execution"
+    if e.tag in ("if", "elseif") and e.attrs.get("cond") in BAD_EXPR.get(dm, []):
+        return "error.execution"
+    if e.tag == "send":
+        for (at, evn) in BAD_SEND:
+            if all(e.attrs.get(k) == v for k, v in at.items()):
+                return evn
+    return None
+
+
+def plant_failure(root, r, dm):
+    """Insert one really failing element at a random position of a random executable block.  -> description or None"""
+    blocks = [e for e in root.walk() if e.tag in ("onentry", "onexit") or (e.tag == "transition" and e.parent.tag not in ("history",))
+              or e.tag == "if"]
+    blocks = [b for b in blocks if not any(a.tag == "content" for a in _ancestors(b))]
+    kinds = ["send"]
+    if BAD_EXPR.get(dm):
+        kinds += ["log", "assign", "if", "data"]
+    kind = r.choice(kinds)
+    if kind == "data":
+        dmel = [c for c in root.children if c.tag == "datamodel"]
+        if not dmel:
+            dmel = [El("datamodel")]
+            root.children.insert(0, dmel[0])
+            dmel[0].parent = root
+        at = {"id": "vbad", "expr": r.choice(BAD_EXPR[dm])}
+        if dm == "promela":
+            at["type"] = "int"
+        dmel[0].add(El("data", at))
+        return "data"
+    if not blocks:
+        return None
+    blk = r.choice(blocks)
+    if kind == "send":
+        at, evn = r.choice(BAD_SEND)
+        el = El("send", dict({"event": "failing"}, **at), delay=0)
+    elif kind == "log":
+        el = El("log", {"label": "FAIL", "expr": r.choice(BAD_EXPR[dm])})
+    elif kind == "assign":
+        var = "v0"
+        el = El("assign", {"location": var, "expr": r.choice(BAD_EXPR[dm])}, var=var)
+    else:
+        el = El("if", {"cond": r.choice(BAD_EXPR[dm])})
+        el.add(El("raise", {"event": "i"}))
+        if r.random() < 0.5:
+            el.add(El("else"))
+            el.add(El("raise", {"event": "j"}))
+    # position: anywhere among the block's executable children (for <if>: not before its own elseif/else markers)
+    kids = blk.children
+    pos = r.randint(0, len(kids))
+    el.parent = blk
+    kids.insert(pos, el)
+    return kind
+
+
+def _ancestors(e):
+    p = e.parent
+    while p is not None:
+        yield p
+        p = p.parent
+
+
+def fail_map(root):
+    dm = root.attrs.get("datamodel", "null")
+    out = {}
+    for e in root.walk():
+        f = failure_of(e, dm)
+        if f:
+            out[e.xpath()] = f
+    return out
+
+
 def from_xml(xml):
     """Rebuild the El tree (with expression ASTs) from SCXML text produced by this generator, so that
     replay files and minimised charts need no generator state.  Expressions are re-parsed from the
@@ -321,6 +402,12 @@ def from_xml(xml):
         return el
     root = conv(troot)
     for e in root.walk():
+        if failure_of(e, dm):
+            if e.tag == "assign":
+                e.meta["var"] = e.attrs["location"]
+            if e.tag == "send":
+                e.meta["delay"] = 0
+            continue
         if e.tag in ("transition", "if", "elseif") and "cond" in e.attrs:
             e.meta["cond_ast"] = parse_expr(e.attrs["cond"], dm)
         if e.tag in ("log", "data") and "expr" in e.attrs:
